@@ -89,6 +89,9 @@ func (vc *VC) emitLemmaAxioms() {
 		if vc.lemmaName != "" && lm.Name == vc.lemmaName {
 			break // a lemma may only use lemmas stated before it (no circular reasoning)
 		}
+		if len(lm.Params) > 0 {
+			continue // parameterised lemmas are instantiated explicitly (uses clauses)
+		}
 		need := map[string]bool{}
 		lemmaSpecs(vc.eng.cs, lm.Expr, need, map[string]bool{})
 		if len(need) == 0 {
@@ -159,6 +162,24 @@ func (eng *Engine) lemmaVC(lm *Lemma) (vc *VC, err error) {
 	add := func(key, guard, cond string) {
 		o := &Obligation{Name: "lemma." + lm.Name + "/" + key, Kind: "lemma", Key: key, Props: lm.Props, Guard: guard, Cond: cond, Pos: fmt.Sprintf("%s:%d", shortFile(lm.File), lm.Line), Src: lm.Src, Func: "lemma." + lm.Name}
 		vc.obls = append(vc.obls, o)
+	}
+	if len(lm.Params) > 0 {
+		bind := map[string]specVal{}
+		pe := &specEnv{vc: vc, pkg: eng.pkgByPath(lm.Pkg), where: "lemma " + lm.Name}
+		for _, p := range lm.Params {
+			srt, t := pe.sortOfName(p.Typ)
+			n := vc.fresh("lp."+p.Name, srt)
+			if t == nil || p.Typ == "int" {
+				bind[p.Name] = mathInt(n)
+			} else {
+				bind[p.Name] = specVal{term: n, typ: t}
+				vc.emit(fmt.Sprintf("(assert %s)", vc.typeFacts(n, t, nil)))
+			}
+		}
+		t, o1, o2 := vc.lemmaFormula(lm, lm.Expr, bind)
+		declHeaps(o1, o2)
+		add("valid", "true", t)
+		return vc, nil
 	}
 	if lm.Induction == "" {
 		t, o1, o2 := vc.lemmaFormula(lm, lm.Expr, nil)
